@@ -142,6 +142,25 @@ impl Prop for C04 {
             &[(0b1, 0b1), (0b110, 0b10), (0, 0)],
             &[(0b1, 0), (0b10, 0), (0b100, 0b100), (0b1000, 0)],
         ];
+        // every load-results shape with at most three items (x no count / matching count / 0),
+        // on the first and on the last of three pipelined loads
+        let mut seen = std::collections::HashSet::new();
+        for items in 0u16..(1 << 9) {
+            for count in [0u16, 1, 2] {
+                let code = items | (count << 12);
+                let shape = format!("{:?}", crate::fake_junos::load_shape(code));
+                if !seen.insert(shape) {
+                    continue;
+                }
+                for at in [3usize, 5] {
+                    out.push(Case {
+                        managed: vec![(0b101, 0), (0, 0b11)],
+                        stale: 1,
+                        fault: Some(Fault { at, kind: FaultKind::LoadShape(code) }),
+                    });
+                }
+            }
+        }
         for managed in contents {
             for stale in [0u8, 1] {
                 let n = managed.len() + stale as usize;
@@ -168,15 +187,26 @@ impl Prop for C04 {
             prop::collection::vec((any::<u16>().prop_map(|m| m & 0xfff), any::<u16>().prop_map(|m| m & 0xfff)), 0..5),
             0u8..3,
             any::<u16>(),
-            0usize..FAULT_KINDS.len(),
+            0usize..FAULT_KINDS.len() + 6,
             prop::bool::weighted(0.9),
+            any::<u16>(),
         )
-            .prop_map(|(managed, stale, at, kind, faulty)| {
+            .prop_map(|(managed, stale, at, kind, faulty, shape)| {
                 let n = managed.len() + stale as usize;
+                // a generated load-results shape is only distinct from RpcError on a load
+                let shaped = kind >= FAULT_KINDS.len() && n > 0;
                 Case {
                     fault: faulty.then(|| Fault {
-                        at: crate::core::pick_idx(at, 6 + n),
-                        kind: FAULT_KINDS[kind].clone(),
+                        at: if shaped {
+                            3 + crate::core::pick_idx(at, n)
+                        } else {
+                            crate::core::pick_idx(at, 6 + n)
+                        },
+                        kind: if shaped {
+                            FaultKind::LoadShape(shape)
+                        } else {
+                            FAULT_KINDS[kind % FAULT_KINDS.len()].clone()
+                        },
                     }),
                     managed,
                     stale,
@@ -227,7 +257,17 @@ impl Prop for C04 {
             None => obs.class("no-fault"),
             Some(f) => {
                 obs.class(format!("fault-at:{}", pos_name(f.at)));
-                obs.class(format!("fault-kind:{:?}", f.kind));
+                match f.kind {
+                    FaultKind::LoadShape(code) => {
+                        obs.class("fault-kind:LoadShape(generated)");
+                        let shape = crate::fake_junos::load_shape(code);
+                        let ok = shape.iter().any(|i| {
+                            matches!(i, crate::fake_junos::ShapeItem::Ok | crate::fake_junos::ShapeItem::OkStartEnd)
+                        });
+                        obs.class(if ok { "load-shape:error-with-ok" } else { "load-shape:no-ok" });
+                    }
+                    _ => obs.class(format!("fault-kind:{:?}", f.kind)),
+                }
                 let on_load_with_later = f.at >= 3 && f.at + 1 < 3 + n;
                 obs.nontrivial = on_load_with_later || f.at >= 3 + n;
             }
